@@ -6,12 +6,13 @@ side with qutip_qip.circuit.circuitsimulator / QubitCircuit on the same circuits
 circuits are compared EXACTLY: the model computes amplitudes in Z[zeta16][1/2]; the harness evaluates
 (sum c_j zeta^j)/2^e in floating point and compares with the code's output to 1e-12.
 
-Oracle (independent of the model, on the real code): dense numpy product of kron-embedded gate matrices
-against every evaluation path, 1e-9.
+Oracle (independent of the model AND of operations/gates.py, on the real code): dense numpy product of the
+kron-embedded DOCUMENTED gate matrices (props/c01_gatedoc.py; user gates as given by the user; names,
+arguments and placements are the harness's own) against every evaluation path, 1e-9.
 
-The model describes the code REPAIRED by fixes/C01-1.patch (sorted merged indices in _mult_sublists),
-fixes/C01-2.patch (scalar conjugate for GLOBALPHASE in density-matrix mode) and /repo commit c6903aa
-(the `state` getter no longer overwrites the internal tensor)."""
+The model describes /repo with the fix commits cbd9b48 (sorted merged indices in _mult_sublists), 26a687b
+(scalar conjugate for GLOBALPHASE in density-matrix mode) and c6903aa (the `state` getter no longer
+overwrites the internal tensor)."""
 import cmath, functools, itertools, math, time
 import numpy as np
 
@@ -496,33 +497,50 @@ class C01(PropertyCheck):
         "QipVerif.C01.library_circuit_eq_denG",
     ]
     technique = ("Lean 4 proof (list combinatorics of the einsum index lists; contraction = embedded operator via the split "
-                 "equivalence; induction over the gate list; invariant of the block list of the compact product) + "
-                 "exact model/implementation correspondence")
+                 "equivalence; induction over the gate list; invariant of the block list of the compact product; decision logic "
+                 "of the gate lookup with opaque user functions) + exact model/implementation correspondence + an oracle that "
+                 "judges the real code against documented gate matrices written independently of operations/gates.py")
     level_text = ("Lean 4 theorems over the executable model (the same definitions the driver runs, instantiated with C), for every "
                   "register size, every injective in-range placement, every measurement-free circuit of library or user gates "
                   "(GLOBALPHASE as a scalar) and every input state: the index lists of the einsum call are characterised; one step is "
                   "the contraction they prescribe (over arbitrary scalars) and equals multiplication by the embedded gate matrix; "
                   "ket, operator-valued and density-matrix runs, compute_unitary, the expanded propagators and their left-to-right "
-                  "product, and the compact product (block-merging heuristic with the sorting oracle, all recursion depths) equal "
-                  "the ordered product denP of the embedded gate matrices. An unsorted set order breaks the compact product "
-                  "(counter-example proved in the kernel, witness confirmed on CPython with 9 qubits). The model is tied to the "
-                  "code by an exact correspondence (amplitudes in Z[zeta16][1/2]) over every placed library gate on 1-3 qubits, "
-                  "pairs of placed gates, seeded random circuits up to 6 qubits with user gates, and 9-11(12) qubit compact products.")
-    level_note = ("The theorems describe the code repaired by fixes/C01-1.patch, fixes/C01-2.patch and /repo commit c6903aa; on the unpatched tree the check reports the open "
-                  "defects as violations. Trusted: Lean kernel; the meaning of np.einsum / reshape / tensor / permute / dag / ket2dm as "
-                  "written in the model (validated by the correspondence); the library gates' matrices are those of C09.")
+                  "product (right-to-left: the product of the reversed circuit), propagators(expand=False) handed to the compact "
+                  "product (block-merging heuristic with the sorting oracle, all recursion depths; returned index list = sorted "
+                  "distinct qubits) equal the ordered product denP of the embedded gate matrices. The step from gate objects to "
+                  "matrix steps is part of the model (get_all_qubits, GLOBALPHASE name test, _get_gate_unitary): the lookup returns "
+                  "exactly what the user supplied (stored operator, f(), f(arg_value) for an arbitrary function f; shadowing of "
+                  "library names; refusals), circuits of user gates run to the product of the user's matrices, and circuits of "
+                  "library gates given in the circuit IR run to denG (the shared specification object built from the matrices "
+                  "generated from the source, whose documented forms are C09) for every real angle. propagators with "
+                  "ignore_measurement drop exactly the measurements, without it a measurement is refused. An unsorted set order "
+                  "breaks the compact product (counter-example proved in the kernel; repaired in /repo by cbd9b48). The model is "
+                  "tied to the code by an exact correspondence (amplitudes in Z[zeta16][1/2]) over every placed library gate on 1-3 "
+                  "qubits (angles incl. 2pi and -5pi/2), pairs of placed gates, seeded random circuits up to 6 qubits with user "
+                  "gates and angles up to +-6pi, circuits with measurements, and 9-11(12) qubit compact products.")
+    level_note = ("The theorems describe /repo as repaired by the fix commits cbd9b48 (sorted merged indices), 26a687b (scalar conjugate "
+                  "for GLOBALPHASE in density-matrix mode) and c6903aa (state getter). Trusted: Lean kernel; the meaning of np.einsum / "
+                  "reshape / tensor / permute / dag / ket2dm as written in the model (validated by the correspondence); that the "
+                  "driver's exact library matrices (Model/Circuit.lean gateE at multiples of pi/8) and compactC of Lemmas/Sem.lean "
+                  "are the code's gate functions is C09's statement, here it is checked by the correspondence (exact angles) and by "
+                  "the oracle against the documented matrices of py/props/c01_gatedoc.py (float angles, |angle| >= 2pi, negative and "
+                  "boundary angles). precompute_unitary=True only emits a warning in this version and is compared as a path.")
     trusted_base = [
         "Lean 4.33 kernel; axioms propext, Classical.choice, Quot.sound",
         "meaning of np.einsum with explicit index lists, ndarray.reshape (row-major), qutip.tensor, Qobj.permute, "
         "Qobj.dag, ket2dm as written in Model/SimKet.lean and Model/Embed.lean (validated by this correspondence, not proved)",
         "Python set iteration order: modelled as an arbitrary order oracle; the repaired code sorts",
         "py/props/c01.py (harness; evaluation of exact cyclotomic numbers in floating point, band 1e-12)",
-        "the gates' compact matrices are those of C09 (Model/Circuit.lean gateE), user matrices are opaque",
+        "py/props/c01_gatedoc.py (the documented matrices of the library gates, transcribed by hand from the docstrings; "
+        "the oracle's notion of 'defining matrix'); user matrices are opaque and evaluated by the harness itself",
+        "the exact library matrices of the driver are those of C09 (Model/Circuit.lean gateE)",
     ]
-    assumptions = ["register of qubits (dims = [2]*N); measurement-free circuits without classical controls"]
+    assumptions = ["register of qubits (dims = [2]*N); measurement-free circuits without classical controls "
+                   "(measurements only as elements dropped / refused by propagators)"]
     rule = ("case = (N, gate list with placements and exact angles, user-gate table, exact input state, evaluation path); "
             "non-trivial = at least one gate that is not placed on the leading qubits in natural order, or >= 2 gates; "
-            "parametric (float-angle) circuits are compared with the dense product only and tagged oracle-only")
+            "parametric (float-angle) circuits (angles uniform in (-7,7) and (-20,20) and boundary values 0, +-pi, +-2pi, "
+            "+-4pi ...) are compared with the dense product of the documented matrices only and tagged oracle-only")
 
     # --------------------------------------------------------------------------------------------
     def _impl_paths(self, N, gates, ugs, ket, rho, oper, paths=None):
